@@ -128,11 +128,13 @@ Theorem C01_slice_returns_on_domain : forall vs fs ref n mask,
   exists r, slice_triangles_by_plane ROps vs fs ref n mask = Ok r.
 Proof. exact slice_total. Qed.
 (* every returned triangle j comes from input face mapping[j] through the per-face kernel; every point of it lies in that
-   face, and, if the face was selected, not further than 1e-8 behind the plane *)
-Theorem C01_public_slice_sound : forall vs fs ref n mask r, vs <> [] ->
+   face, and, if the face was selected (m is the entry of the mask that was passed, true when no mask was passed), not further
+   than 1e-8 behind the plane *)
+Theorem C01_public_slice_sound : forall vs fs ref n mask r, vs <> [] -> mask_ok (length fs) mask ->
   slice_triangles_by_plane ROps vs fs ref n mask = Ok r ->
   forall i x, In (i, x) (zip (mo_map r) (mesh_tris (mo_v r) (mo_f r))) ->
   exists f t t' m, nth_error fs i = Some f /\ lookup3 vs f = Some t /\ x = Some t' /\
+    nth_error (mask_list (length fs) mask) i = Some m /\
     In t' (slice_face ROps (merge_tol ROps) (patch_eps ROps) n ref m t) /\
     forall p, in_tri t' p -> in_tri t p /\ (m = true -> - merge_tol ROps <= pd n ref p).
 Proof. exact public_slice_sound. Qed.
